@@ -352,11 +352,13 @@ fn tags(p: &Pat) -> Vec<&'static str> {
 }
 
 // ------------------------------------------------------------------ generators: patterns
-const TEXT_BYTES: &[u8] = b"abABxyz019 _-.\x00\xff\x7f\nq";
+// letters, digits, punctuation and control bytes; in particular pairs that differ only in bit 5
+// without being case variants ([ {  ] }  @ `  \ |  ^ ~  0x10 0x30  0x1f ?) and in bit 7
+const TEXT_BYTES: &[u8] = b"abABxyz019 _-.\x00\xff\x7f\nq[{]}@`\\|^~\x10\x1f?!\x01=\xe1\xc1";
 fn gen_byte(rng: &mut Rng) -> u8 {
     if rng.chance(1, 12) { rng.below(256) as u8 } else { *rng.pick(TEXT_BYTES) }
 }
-fn gen_alnum_heavy(rng: &mut Rng) -> u8 { *rng.pick(b"abAB01xyzq") }
+fn gen_alnum_heavy(rng: &mut Rng) -> u8 { if rng.chance(1, 6) { *rng.pick(b"[{]}@`^~_\x10") } else { *rng.pick(b"abAB01xyzq") } }
 
 fn gen_alphabet(rng: &mut Rng) -> Vec<u8> {
     // a permutation of the standard alphabet, sometimes with other punctuation
@@ -386,7 +388,8 @@ pub fn gen_text(rng: &mut Rng) -> Pat {
     }
     match rng.below(4) { 0 => {} 1 => m.ascii = true, 2 => m.wide = true, _ => { m.ascii = true; m.wide = true; } }
     let min = if m.b64.is_some() || m.b64wide.is_some() { 3 } else { 1 };
-    let span = if rng.chance(1, 6) { 9 } else { 4 };
+    // short literals (the atom covers them: exact-atom path) and literals longer than the 4-byte atom
+    let span = if rng.chance(1, 2) { 10 } else { 4 };
     let len = min + rng.below(span) as usize;
     let alnum = m.fullword || rng.chance(1, 2);
     let text: Vec<u8> = (0..len).map(|_| if alnum { gen_alnum_heavy(rng) } else { gen_byte(rng) }).collect();
@@ -616,7 +619,7 @@ fn near_miss(inst: &[u8], p: &Pat, rng: &mut Rng) -> Vec<u8> {
     let mut v = inst.to_vec();
     if v.is_empty() { return v; }
     match rng.below(7) {
-        0 => { let i = rng.below(v.len() as u64) as usize; v[i] ^= 1 << rng.below(8); }          // one bit off
+        0 => { let i = rng.below(v.len() as u64) as usize; let r = rng.below(8); v[i] ^= 1 << *rng.pick(&[5u64, 5, 7, r]); }   // one bit off (the case bit and the top bit more often)
         1 => { let i = rng.below(v.len() as u64) as usize; v[i] = flip_case(v[i]); }             // case flipped
         2 => { v.pop(); }                                                                         // truncated
         3 => { let k = 1 + rng.below(255) as u8; for b in v.iter_mut() { *b ^= k; } }              // xor'ed
@@ -694,36 +697,54 @@ pub fn rule_source(p: &Pat, cond: usize, noise: usize) -> String {
     s
 }
 
-pub fn scan(src: &str, data: &[u8], max_matches: Option<usize>) -> Result<ScanOut, String> {
+/// compile `src`, then scan every buffer of `datas` in turn with ONE scanner; for every buffer the
+/// matches of the patterns `idents` of rule r
+pub fn scan_multi(src: &str, datas: &[&[u8]], idents: &[&str], max_matches: Option<usize>) -> Result<Vec<Vec<ScanOut>>, String> {
     let rules = { let mut c = yara_x::Compiler::new(); c.add_source(src).map_err(|e| e.to_string())?; c.build() };
     let dump = Some(rules.verif_c01_dump());
-    let r = catch(AssertUnwindSafe(|| {
-        let mut sc = yara_x::Scanner::new(&rules);
-        if let Some(n) = max_matches { sc.max_matches_per_pattern(n); }
-        let res = sc.scan(data).map_err(|e| e.to_string())?;
-        let mut out = vec![];
-        let mut bytes_wrong: Option<String> = None;
-        let rule = res.matching_rules().chain(res.non_matching_rules()).find(|r| r.identifier() == "r");
-        if let Some(rule) = rule {
-            for pat in rule.patterns() {
-                if pat.identifier() == "$a" {
-                    for m in pat.matches() {
-                        let r = m.range(); out.push((r.start, r.end - r.start, m.xor_key()));
-                        match catch(AssertUnwindSafe(|| m.data().to_vec())) {
-                            Ok(b) => if data.get(r.clone()) != Some(&b[..]) && bytes_wrong.is_none() { bytes_wrong = Some(format!("Match::data() for {:?} is not the buffer slice", r)); },
-                            Err(e) => if bytes_wrong.is_none() { bytes_wrong = Some(format!("Match::data() for {:?} panicked: {}", r, e)); },
+    let mut sc = yara_x::Scanner::new(&rules);
+    if let Some(n) = max_matches { sc.max_matches_per_pattern(n); }
+    let mut all = vec![];
+    for data in datas {
+        let r = catch(AssertUnwindSafe(|| {
+            let res = sc.scan(data).map_err(|e| e.to_string())?;
+            let rule = match res.matching_rules().chain(res.non_matching_rules()).find(|r| r.identifier() == "r") {
+                Some(r) => r, None => return Err("rule r not found in the results".to_string()) };
+            let mut per = vec![];
+            for ident in idents {
+                let mut out = vec![];
+                let mut bytes_wrong: Option<String> = None;
+                for pat in rule.patterns() {
+                    if pat.identifier() == *ident {
+                        for m in pat.matches() {
+                            let r = m.range(); out.push((r.start, r.end - r.start, m.xor_key()));
+                            match catch(AssertUnwindSafe(|| m.data().to_vec())) {
+                                Ok(b) => if data.get(r.clone()) != Some(&b[..]) && bytes_wrong.is_none() { bytes_wrong = Some(format!("Match::data() for {:?} is not the buffer slice", r)); },
+                                Err(e) => if bytes_wrong.is_none() { bytes_wrong = Some(format!("Match::data() for {:?} panicked: {}", r, e)); },
+                            }
                         }
                     }
                 }
+                per.push((out, bytes_wrong));
             }
-        } else { return Err("rule r not found in the results".to_string()); }
-        Ok((out, bytes_wrong))
-    }));
-    match r {
-        Ok(Ok((m, bw))) => Ok(ScanOut { matches: m, panic: None, bytes_wrong: bw, dump }),
-        Ok(Err(e)) => Err(e),
-        Err(p) => Ok(ScanOut { matches: vec![], panic: Some(p), bytes_wrong: None, dump }),
+            Ok(per)
+        }));
+        match r {
+            Ok(Ok(per)) => all.push(per.into_iter().map(|(m, bw)| ScanOut { matches: m, panic: None, bytes_wrong: bw, dump: dump.clone() }).collect()),
+            Ok(Err(e)) => return Err(e),
+            Err(p) => {
+                all.push(idents.iter().map(|_| ScanOut { matches: vec![], panic: Some(p.clone()), bytes_wrong: None, dump: dump.clone() }).collect());
+                // the scanner may be unusable after a panic
+                sc = yara_x::Scanner::new(&rules);
+                if let Some(n) = max_matches { sc.max_matches_per_pattern(n); }
+            }
+        }
     }
+    Ok(all)
+}
+
+pub fn scan(src: &str, data: &[u8], max_matches: Option<usize>) -> Result<ScanOut, String> {
+    Ok(scan_multi(src, &[data], &["$a"], max_matches)?.remove(0).remove(0))
 }
 
 // ------------------------------------------------------------------ stream (a): MatchList ops
@@ -1073,6 +1094,263 @@ fn pipe_case(rng: &mut Rng, idx: usize, stats: &mut Stats) -> Option<(String, St
     Some((case, replay, key))
 }
 
+
+// ------------------------------------------------------------------ stream (c4): single-byte perturbations
+/// a text pattern of a chosen modifier family (or a flat hex pattern) over letters, digits,
+/// punctuation and control bytes, longer than the 4-byte atom, and buffers made of the pattern's
+/// genuine instance with ONE bit of ONE byte flipped -- every byte position in turn (inside and
+/// outside the atom window), bit 5 (the ASCII case bit), bit 7 and a random bit
+fn directed_perturb(rng: &mut Rng, round: usize) -> (Pat, Vec<Vec<u8>>, &'static str) {
+    let mut m = TMods::default();
+    let fam = round % 8;
+    let name = match fam {
+        0 => { "plain" }
+        1 => { m.nocase = true; "nocase" }
+        2 => { m.nocase = true; m.wide = true; m.ascii = rng.chance(1, 2); "nocase_wide" }
+        3 => { m.fullword = true; m.nocase = rng.chance(1, 2); "fullword" }
+        4 => { let a = rng.below(256) as u8; m.xor = Some((a, a.saturating_add(rng.below(3) as u8))); m.xor_explicit = true; "xor" }
+        5 => { if rng.chance(1, 2) { m.b64 = Some(if rng.chance(1, 2) { Some(gen_alphabet(rng)) } else { None }) } else { m.b64wide = Some(None) }; "base64" }
+        6 => { m.wide = true; "wide" }
+        _ => "hex",
+    };
+    let len = 5 + rng.below(8) as usize;
+    let p = if fam == 7 {
+        let mut h = gen_hex_flat(rng);
+        if let Pat::Hex(Re::Cat(ref mut items)) = h { while items.len() < 6 { items.insert(0, Re::Cls(Cls::Byte(gen_byte(rng)))); } }
+        h
+    } else {
+        // at least one byte whose bit-5 partner is not its case variant, outside the first four bytes
+        let mut text: Vec<u8> = (0..len).map(|_| if rng.chance(1, 2) { *rng.pick(b"[{]}@`\\|^~_\x7f0123456789\x10\x1f!? -.") } else { *rng.pick(b"abABxyzqZ") }).collect();
+        if m.fullword { text[0] = *rng.pick(b"abAB01"); let l = text.len(); text[l - 1] = *rng.pick(b"abAB01"); }
+        Pat::Text(text, m)
+    };
+    let inst = pat_instance(&p, rng);
+    let mut variants: Vec<Vec<u8>> = vec![];
+    for i in 0..inst.len() {
+        for bit in [5u8, 7, rng.below(8) as u8] {
+            let mut v = inst.clone(); v[i] ^= 1 << bit; variants.push(v);
+        }
+    }
+    // shuffle, then pack into at most two buffers of <= 260 bytes, one genuine instance in each
+    for i in (1..variants.len()).rev() { let j = rng.below(i as u64 + 1) as usize; variants.swap(i, j); }
+    let mut bufs = vec![];
+    let mut it = variants.into_iter();
+    for _ in 0..2 {
+        let mut buf: Vec<u8> = vec![];
+        let genuine_at = rng.below(4);
+        let mut k = 0;
+        while buf.len() + inst.len() + 1 <= 260 {
+            if k == genuine_at { buf.extend_from_slice(&pat_instance(&p, rng)); }
+            else { match it.next() { Some(v) => buf.extend_from_slice(&v), None => break } }
+            buf.push(*rng.pick(b" .\n\x00"));
+            k += 1;
+        }
+        if !buf.is_empty() { bufs.push(buf); }
+    }
+    (p, bufs, name)
+}
+
+// ------------------------------------------------------------------ stream (e): chains
+/// a pattern that the compiler splits into a chain of 2..5 literal pieces: hex with jumps over the
+/// chaining threshold / unbounded jumps, or /lit.*lit.{n,}lit/s, uniformly greedy or lazy
+fn gen_chain(rng: &mut Rng) -> (Pat, Vec<Vec<u8>>) {
+    let npieces = 2 + rng.below(4) as usize;
+    let alpha: &[u8] = if rng.chance(1, 2) { b"abc" } else { b"abcdeXY_" };
+    let mut lits: Vec<Vec<u8>> = vec![];
+    for i in 0..npieces {
+        let l = if rng.chance(1, 6) { 5 + rng.below(3) as usize } else { 2 + rng.below(3) as usize };
+        // sometimes the same literal again
+        if i > 0 && rng.chance(1, 6) { let k = rng.below(i as u64) as usize; lits.push(lits[k].clone()); }
+        else { lits.push((0..l).map(|_| *rng.pick(alpha)).collect()); }
+    }
+    let regexp = rng.chance(1, 2);
+    let greedy = rng.chance(1, 2);
+    let mut items: Vec<Re> = vec![];
+    for (i, l) in lits.iter().enumerate() {
+        if i > 0 {
+            let (mn, mx) = match rng.below(6) {
+                0 | 1 => (0, None), 2 => (1 + rng.below(4) as usize, None),
+                3 => (0, Some(201 + rng.below(30) as usize)),
+                4 => { let a = 1 + rng.below(5) as usize; (a, Some(a + 201 + rng.below(10) as usize)) }
+                _ => (rng.below(3) as usize, Some(250)),
+            };
+            items.push(Re::Rep(Box::new(Re::Cls(Cls::Any)), mn, mx, if regexp { greedy } else { false }));
+        }
+        if regexp { items.push(Re::Lit(l.clone())); } else { for b in l { items.push(Re::Cls(Cls::Byte(*b))); } }
+    }
+    let p = if regexp { Pat::Regexp(Re::Cat(items), RMods { dotall: true, ..Default::default() }) } else { Pat::Hex(Re::Cat(items)) };
+    (p, lits)
+}
+
+/// buffers for a chain: the pieces in order, out of order, repeated heads / middles / tails, small
+/// separators, now and then more than 200 bytes of filler
+fn gen_chain_buffer(lits: &[Vec<u8>], rng: &mut Rng) -> Vec<u8> {
+    let mut buf = vec![];
+    let n = lits.len();
+    let tokens = n + rng.below(2 * n as u64 + 2) as usize;
+    let mut next = 0usize;
+    let mut long_fillers = 0;
+    if rng.chance(1, 3) { buf.push(b'_'); }
+    for _ in 0..tokens {
+        let k = match rng.below(10) {
+            0..=4 => { let k = next % n; next += 1; k }                 // in order
+            5 => n - 1,                                                  // another tail
+            6 => 0,                                                      // another head
+            7 if n > 2 => 1 + rng.below(n as u64 - 2) as usize,          // another middle
+            _ => rng.below(n as u64) as usize,
+        };
+        buf.extend_from_slice(&lits[k]);
+        if rng.chance(1, 8) { let l = buf.len(); buf[l - 1] ^= 0x20; }   // a near miss
+        let fill = if long_fillers < 1 && rng.chance(1, 40) { long_fillers += 1; 196 + rng.below(20) as usize } else { rng.below(4) as usize };
+        for _ in 0..fill { buf.push(*rng.pick(b"__.x")); }
+        if buf.len() > 300 { break; }
+    }
+    buf
+}
+
+fn coq_chain_dump(dump: &Dump) -> Option<(String, String, usize, usize)> {
+    let (sps, atoms, _) = dump;
+    let bits: std::collections::HashMap<&str, u16> = yara_x::verif_c01dump::verif_c01_flag_bits().into_iter().collect();
+    let mine: Vec<(usize, &yara_x::verif_c01dump::SubPatternDump)> = sps.iter().enumerate().filter(|(_, sp)| sp.pattern_id == 0).collect();
+    if mine.len() < 2 || mine.iter().enumerate().any(|(k, (i, _))| k != *i) { return None; }
+    let mut out = vec![];
+    for (k, (_, sp)) in mine.iter().enumerate() {
+        let f = |n: &str| coq_bool(sp.flags & bits[n] != 0);
+        let flags = format!("(mkF {} {} {} {})", f("Wide"), f("Nocase"), f("FullwordLeft"), f("FullwordRight"));
+        let lit = coq_list(sp.literal.as_deref()?, |b| b.to_string());
+        let link = match (sp.kind, k) {
+            ("LiteralChainHead", 0) => "None".to_string(),
+            ("LiteralChainTail", _) => {
+                let (mn, mx) = sp.gap?;
+                let g = match mx { Some(mx) => format!("GBounded {} {}", coq_nat(mn as usize), coq_nat(mx as usize)), None => format!("GUnbounded {}", coq_nat(mn as usize)) };
+                format!("(Some ({}, {}))", coq_nat(sp.chained_to?), g)
+            }
+            _ => return None,
+        };
+        out.push(format!("mkCP {} {} {} {} {}", lit, flags, f("LastInChain"), f("GreedyRegexp"), link));
+    }
+    let my_atoms: Vec<String> = atoms.iter().filter(|a| a.sub_pattern_id < mine.len())
+        .map(|a| format!("mkAtom {} {} {} {}", coq_nat(a.sub_pattern_id), coq_list(&a.bytes, |b| b.to_string()), coq_nat(a.backtrack), coq_bool(a.exact))).collect();
+    let n_atoms = my_atoms.len();
+    Some((format!("[{}]", out.join("; ")), format!("[{}]", my_atoms.join("; ")), mine.len(), n_atoms))
+}
+
+fn chain_case(p: &Pat, data: &[u8], noise: usize, idx: usize, stats: &mut Stats) -> Option<(String, String, String)> {
+    let src = rule_source(p, idx % CONDS.len(), noise);
+    let out = match scan(&src, data, None) { Ok(o) => o, Err(e) => { eprintln!("c01: stream e pattern rejected: {e}\n{src}"); return None; } };
+    let dumped = coq_chain_dump(out.dump.as_ref()?);
+    if out.panic.is_some() || out.bytes_wrong.is_some() || dumped.is_none() {
+        // not a chain of literals (or a panic): the plain differential case
+        stats.inc("chain_not_literal_chain");
+        let (case, replay, _) = scan_case(p, data, idx % CONDS.len(), noise, None, idx).ok()?;
+        return Some((case, replay, String::new()));
+    }
+    let (pieces, atoms, np, natoms) = dumped?;
+    stats.inc("chain_cases"); stats.inc(&format!("chain_pieces_{}", np)); stats.add("chain_atoms", natoms as u64);
+    stats.inc(match p { Pat::Regexp(Re::Cat(v), _) => if v.iter().any(|x| matches!(x, Re::Rep(_, _, _, true))) { "chain_regexp_greedy" } else { "chain_regexp_lazy" }, _ => "chain_hex" });
+    stats.inc(match out.matches.len() { 0 => "chain_matches_0", 1 => "chain_matches_1", _ => "chain_matches_2+" });
+    if data.len() > 200 { stats.inc("chain_data_over_200"); }
+    let case = format!("ChainCase {} {} {} {} {}", coq_pat(p), pieces, atoms, coq_list(data, |b| b.to_string()),
+        coq_list(&out.matches, |(s, l, k)| format!("({},{},{})", s, l, coq_key(k))));
+    let replay = format!("{{\"stream\":\"scan\",\"sub_stream\":\"chain\",\"index\":{},\"shape\":{},\"tags\":{},\"data_len\":{},\"source\":{},\"data_hex\":\"{}\",\"max_matches_per_pattern\":null,\"reported\":{},\"panic\":null,\"pieces\":{},\"atoms\":{}}}",
+        idx, json_str(&shape(p)), serde_json::to_string(&tags(p)).unwrap(), data.len(), json_str(&src), hex(data),
+        json_str(&format!("{:?}", out.matches)), json_str(&pieces), json_str(&atoms));
+    let key = if out.matches.is_empty() { String::new() } else { format!("e|{}|{}", yara_pat(p), hex(data)) };
+    Some((case, replay, key))
+}
+
+// ------------------------------------------------------------------ stream (f): several related patterns, one scanner
+/// 2..4 patterns that share text, share a custom alphabet, differ only in the alphabet or in a
+/// modifier, or are plain duplicates
+fn gen_related(rng: &mut Rng) -> Vec<Pat> {
+    let base = loop { let p = gen_text(rng); if let Pat::Text(t, _) = &p { if t.len() >= 3 { break p; } } };
+    let (text, mods) = match &base { Pat::Text(t, m) => (t.clone(), m.clone()), _ => unreachable!() };
+    let n = 2 + rng.below(3) as usize;
+    let mut out = vec![base.clone()];
+    let other_text = |rng: &mut Rng, t: &Vec<u8>| -> Vec<u8> { let mut v = t.clone(); let i = rng.below(v.len() as u64) as usize; v[i] = gen_alnum_heavy(rng); if rng.chance(1, 2) { v.push(gen_alnum_heavy(rng)); } v };
+    let is_b64 = mods.b64.is_some() || mods.b64wide.is_some();
+    for _ in 1..n {
+        let mut m = mods.clone();
+        let mut t = text.clone();
+        match rng.below(6) {
+            0 => {}                                                           // a duplicate
+            1 => { t = other_text(rng, &t); }                                 // same modifiers (and alphabet), other text
+            2 | 3 if is_b64 => {                                              // same text, another alphabet
+                if m.b64.is_some() { m.b64 = Some(Some(gen_alphabet(rng))); }
+                if m.b64wide.is_some() { m.b64wide = Some(Some(gen_alphabet(rng))); }
+            }
+            2 => { m.nocase = !m.nocase && m.xor.is_none(); }
+            3 => { if m.xor.is_none() { m.fullword = !m.fullword; } else { m.xor = Some((1, 3)); m.xor_explicit = true; } }
+            4 => { // same text, another family
+                m = TMods::default();
+                match rng.below(3) { 0 => { m.b64 = Some(Some(gen_alphabet(rng))); } 1 => { m.xor = Some((0, 255)); m.xor_explicit = true; } _ => { m.wide = true; m.ascii = true; m.nocase = true; } }
+            }
+            _ => { m.wide = !m.wide; if !m.wide { m.ascii = false; } }
+        }
+        out.push(Pat::Text(t, m));
+    }
+    // base64 family: force the interesting constellation now and then -- the same text with two
+    // different custom alphabets, and two texts with the same custom alphabet
+    if rng.chance(1, 3) {
+        let a1 = gen_alphabet(rng); let a2 = gen_alphabet(rng);
+        let wide = rng.chance(1, 3);
+        let mk = |t: &Vec<u8>, a: &Vec<u8>| { let mut m = TMods::default(); if wide { m.b64wide = Some(Some(a.clone())); } else { m.b64 = Some(Some(a.clone())); } Pat::Text(t.clone(), m) };
+        let t2 = other_text(rng, &text);
+        out = vec![mk(&text, &a1), mk(&text, &a2), mk(&t2, &a1)];
+        if rng.chance(1, 2) { out.swap(0, 1); }
+        if rng.chance(1, 2) { out.swap(1, 2); }
+    }
+    out
+}
+
+fn multi_source(pats: &[Pat]) -> (String, Vec<String>) {
+    let idents: Vec<String> = (0..pats.len()).map(|i| format!("${}", (b'a' + i as u8) as char)).collect();
+    let mut s = String::from("rule r {\n  strings:\n");
+    for (id, p) in idents.iter().zip(pats) { let _ = write!(s, "    {} = {}\n", id, yara_pat(p)); }
+    let cond: Vec<String> = idents.iter().map(|id| format!("#{} >= 0", &id[1..])).collect();
+    let _ = write!(s, "  condition:\n    {}\n}}\n", cond.join(" and "));
+    (s, idents)
+}
+
+/// one ScanCase per (buffer, pattern): the buffers are scanned one after the other by one scanner
+fn multi_cases(rng: &mut Rng, idx: usize, stats: &mut Stats) -> Vec<(String, String, String)> {
+    let pats = gen_related(rng);
+    let (src, idents) = multi_source(&pats);
+    let nbuf = 1 + rng.below(2) as usize;
+    let mut datas: Vec<Vec<u8>> = vec![];
+    for _ in 0..nbuf {
+        let mut d = vec![];
+        let mut order: Vec<usize> = (0..pats.len()).collect();
+        for i in (1..order.len()).rev() { let j = rng.below(i as u64 + 1) as usize; order.swap(i, j); }
+        for k in order { if rng.chance(4, 5) { d.extend_from_slice(&gen_buffer(&pats[k], rng, 30)); d.push(*rng.pick(b" .\n")); } }
+        datas.push(d);
+    }
+    let drefs: Vec<&[u8]> = datas.iter().map(|d| &d[..]).collect();
+    let irefs: Vec<&str> = idents.iter().map(|s| s.as_str()).collect();
+    let outs = match scan_multi(&src, &drefs, &irefs, None) { Ok(o) => o, Err(e) => { stats.inc("multi_rejected_by_compiler");
+        if std::env::var("C01_SHOW_REJECTED").is_ok() { eprintln!("rejected: {}\n  {}", src, e.lines().take(12).collect::<Vec<_>>().join("\n  ")); }
+        return vec![]; } };
+    stats.inc("multi_rule_sets"); stats.inc(&format!("multi_patterns_{}", pats.len()));
+    let mut cases = vec![];
+    for (bi, per) in outs.iter().enumerate() {
+        for (pi, out) in per.iter().enumerate() {
+            let p = &pats[pi]; let data = &datas[bi];
+            stats.inc("multi_cases"); if bi > 0 { stats.inc("multi_second_scan_same_scanner"); }
+            stats.inc(match out.matches.len() { 0 => "multi_matches_0", 1 => "multi_matches_1", _ => "multi_matches_2+" });
+            let case = format!("ScanCase {} {} None {} {}", coq_pat(p), coq_list(data, |b| b.to_string()),
+                coq_bool(out.panic.is_some() || out.bytes_wrong.is_some()),
+                coq_list(&out.matches, |(s, l, k)| format!("({},{},{})", s, l, coq_key(k))));
+            let replay = format!("{{\"stream\":\"scan\",\"sub_stream\":\"multi\",\"index\":{},\"shape\":{},\"tags\":{},\"data_len\":{},\"source\":{},\"ident\":{},\"prior_data_hex\":{},\"data_hex\":\"{}\",\"max_matches_per_pattern\":null,\"reported\":{},\"panic\":{}}}",
+                idx, json_str(&format!("multi:{}", shape(p))), serde_json::to_string(&tags(p)).unwrap(), data.len(), json_str(&src), json_str(&idents[pi]),
+                serde_json::to_string(&datas[..bi].iter().map(|d| hex(d)).collect::<Vec<_>>()).unwrap(), hex(data),
+                json_str(&format!("{:?}", out.matches)), match (&out.panic, &out.bytes_wrong) { (Some(m), _) => json_str(m), (None, Some(m)) => json_str(m), _ => "null".into() });
+            let key = if out.matches.is_empty() { String::new() } else { format!("f|{}|{}", yara_pat(p), hex(data)) };
+            cases.push((case, replay, key));
+        }
+    }
+    cases
+}
+
 fn main() { let args: Vec<String> = std::env::args().skip(1).collect(); std::process::exit(run(&args)); }
 
 pub fn run(args: &[String]) -> i32 {
@@ -1094,8 +1372,12 @@ pub fn run(args: &[String]) -> i32 {
         let src = std::fs::read_to_string(&path).expect("source file");
         let data = unhex(&arg_val(args, "--data-hex").unwrap_or_default());
         let mm = arg_val(args, "--max").and_then(|v| v.parse().ok());
-        match scan(&src, &data, mm) {
-            Ok(o) => { println!("reported={:?} panic={:?} bytes={:?}", o.matches, o.panic, o.bytes_wrong); return 0; }
+        let ident = arg_val(args, "--ident").unwrap_or("$a".into());
+        // buffers scanned before with the same scanner (comma separated hex)
+        let prior: Vec<Vec<u8>> = arg_val(args, "--prior-hex").map(|v| v.split(',').filter(|x| !x.is_empty()).map(unhex).collect()).unwrap_or_default();
+        let mut datas: Vec<&[u8]> = prior.iter().map(|d| &d[..]).collect(); datas.push(&data);
+        match scan_multi(&src, &datas, &[ident.as_str()], mm) {
+            Ok(mut o) => { let o = o.pop().unwrap().remove(0); println!("reported={:?} panic={:?} bytes={:?}", o.matches, o.panic, o.bytes_wrong); return 0; }
             Err(e) => { println!("error: {e}"); return 1; }
         }
     }
@@ -1131,7 +1413,7 @@ pub fn run(args: &[String]) -> i32 {
         }
     }
     if only.is_none() || only.as_deref() == Some("c") {
-        // stream (c): about 30% of the cases, in rotation: 3 x c2, 1 x c1, 1 x c3
+        // stream (c): about 30% of the cases, in rotation: 2 x c2 (kernels), 1 x c1 (jump + mask), 1 x c3 (masked literals), 2 x c4 (one-bit perturbations)
         let budget = if only.is_some() { n } else { shards.total + n * 3 / 10 };
         let mut round = 0usize;
         while shards.total < budget.min(n) {
@@ -1146,10 +1428,13 @@ pub fn run(args: &[String]) -> i32 {
                     Err(e) => { eprintln!("c01: directed pattern rejected: {e}\n{}", rule_source(p, cond, noise)); false }
                 }
             };
-            match round % 5 {
-                0 => { let (p, d) = directed_jump_mask(&mut rng, (round / 5) % 2 == 0);
-                       if !push(&p, &d, 0, if (round / 5) % 2 == 0 { "directed_jump_mask_fwd" } else { "directed_jump_mask_bck" }, &mut stats, &mut shards, &mut distinct) { return 2; } }
-                1 => { let len = MASKED_LITERAL_LENGTHS[(round / 5) % MASKED_LITERAL_LENGTHS.len()];
+            match round % 6 {
+                0 => { let (p, d) = directed_jump_mask(&mut rng, (round / 6) % 2 == 0);
+                       if !push(&p, &d, 0, if (round / 6) % 2 == 0 { "directed_jump_mask_fwd" } else { "directed_jump_mask_bck" }, &mut stats, &mut shards, &mut distinct) { return 2; } }
+                2 | 4 => { let (p, bufs, fam) = directed_perturb(&mut rng, round / 3);
+                       for d in bufs { if !push(&p, &d, 0, "directed_one_bit_perturbations", &mut stats, &mut shards, &mut distinct) { return 2; } }
+                       stats.inc(&format!("perturb_{}", fam)); }
+                1 => { let len = MASKED_LITERAL_LENGTHS[(round / 6) % MASKED_LITERAL_LENGTHS.len()];
                        let (p, bufs) = directed_masked_literal(&mut rng, len);
                        for d in bufs { if !push(&p, &d, 0, "directed_masked_literal", &mut stats, &mut shards, &mut distinct) { return 2; } } }
                 _ => { let (p, d, noise) = directed_teddy(&mut rng);
@@ -1165,6 +1450,35 @@ pub fn run(args: &[String]) -> i32 {
         while shards.total < budget.min(n) && tries < 20 * n {
             tries += 1; idx += 1;
             if let Some((case, replay, key)) = pipe_case(&mut rng, idx, &mut stats) {
+                if !key.is_empty() { distinct.insert(key); }
+                shards.push(case, replay);
+            }
+        }
+    }
+    if only.is_none() || only.as_deref() == Some("e") {
+        // stream (e): about 12% of the cases
+        let budget = if only.is_some() { n } else { shards.total + n * 12 / 100 };
+        let mut tries = 0;
+        while shards.total < budget.min(n) && tries < 20 * n {
+            tries += 1; idx += 1;
+            let (p, lits) = gen_chain(&mut rng);
+            let noise = if rng.chance(1, 4) { *rng.pick(&[20usize, 40, 70]) } else { 0 };
+            for _ in 0..(1 + rng.below(3)) {
+                let data = gen_chain_buffer(&lits, &mut rng);
+                if let Some((case, replay, key)) = chain_case(&p, &data, noise, idx, &mut stats) {
+                    if !key.is_empty() { distinct.insert(key); }
+                    shards.push(case, replay);
+                }
+            }
+        }
+    }
+    if only.is_none() || only.as_deref() == Some("f") {
+        // stream (f): about 12% of the cases
+        let budget = if only.is_some() { n } else { shards.total + n * 12 / 100 };
+        let mut tries = 0;
+        while shards.total < budget.min(n) && tries < 20 * n {
+            tries += 1; idx += 1;
+            for (case, replay, key) in multi_cases(&mut rng, idx, &mut stats) {
                 if !key.is_empty() { distinct.insert(key); }
                 shards.push(case, replay);
             }
